@@ -45,9 +45,9 @@ func Boundary() Spec {
 		}}
 	}
 	evs := []E{
-		fix(CreateBatch(A, "C01-001", date(2022, 5, 5), date(2022, 5, 5), true, nil, Iss(B, "3", "0"))),                 // start = end
-		fix(CreateBatch(A, "C01-001", epoch, date(1971, 1, 1), true, nil, Iss(B, "3", "0.5"))),                           // start at the Unix epoch
-		fix(CreateBatch(A, "C01-001", date(1969, 7, 20), date(1969, 7, 21), false, nil, Iss(B, "3", "0"))),              // pre-1970, sealed
+		fix(CreateBatch(A, "C01-001", date(2022, 5, 5), date(2022, 5, 5), true, nil, Iss(B, "3", "0"))),                                                   // start = end
+		fix(CreateBatch(A, "C01-001", epoch, date(1971, 1, 1), true, nil, Iss(B, "3", "0.5"))),                                                            // start at the Unix epoch
+		fix(CreateBatch(A, "C01-001", date(1969, 7, 20), date(1969, 7, 21), false, nil, Iss(B, "3", "0"))),                                                // pre-1970, sealed
 		fix(CreateBatch(A, "C01-001", date(2022, 1, 1), date(2023, 1, 1), true, &basetypes.OriginTx{Id: "serial-1", Source: "verra"}, Iss(C, "1e0", ""))), // origin tx without contract
 		fix(CreateBatch(A, "C01-001", date(1, 1, 1), date(9999, 12, 31), true, &basetypes.OriginTx{Id: TxHash(7), Source: "polygon", Contract: Contract2, Note: strings.Repeat("n", 512)}, Iss(C, "1", "1"))),
 		fix(Msg("CreateProject(A,C01,max-lengths)", &basetypes.MsgCreateProject{Admin: A.String(), ClassId: "C01", Metadata: long, Jurisdiction: "US-WA 98225", ReferenceId: ref32})),
